@@ -112,6 +112,31 @@ theorem C18_jpeg_bytes (im : ImgIn) (existing : List Bytes) (hd : im.filters.get
 
 example : ([Flt.a85, Flt.dct] : List Flt).getLast? = some .dct := by decide
 
+/-! ## Kinds the property does not name: 2/4/16-bit samples, CMYK, Lab, … -/
+
+/-- **raw_dump.** An image that is neither DCT/JPX/JBIG2 nor one of the bitmap kinds, and not a
+    single-Flate stream (which needs Pillow), is dumped unchanged — file content = `get_data()` — under
+    a new name `<name>[.k].<bits>.<w>x<h>.img`; nothing is lost and no existing file is touched. -/
+theorem C18_raw_dump (im : ImgIn) (existing : List Bytes)
+    (h1 : im.filters.getLast? ≠ some .dct) (h2 : im.filters.getLast? ≠ some .jpx)
+    (h3 : im.filters.contains .jbig2 = false) (hb : im.bits ≠ 1)
+    (hc : ¬ (im.bits = 8 ∧ (isRGB im.cs = true ∨ isGray im.cs = true))) (hf : im.filters ≠ [.flate]) :
+    ∃ nm, exportImage im existing = .ok (nm, im.data) ∧ nm ∉ existing ∧
+      ∃ stem, nm = stem ++ rawExt im.bits im.w im.h := by
+  have hsome := uniqueName_isSome existing im.name (rawExt im.bits im.w im.h)
+  obtain ⟨nm, hnm⟩ := Option.isSome_iff_exists.mp hsome
+  obtain ⟨hfresh, j, _, hj⟩ := uniqueName_fresh existing im.name _ nm hnm
+  refine ⟨nm, ?_, hfresh, ?_⟩
+  · unfold exportImage
+    have hc1 : ¬ (im.bits = 8 ∧ isRGB im.cs = true) := fun h => hc ⟨h.1, Or.inl h.2⟩
+    have hc2 : ¬ (im.bits = 8 ∧ isGray im.cs = true) := fun h => hc ⟨h.1, Or.inr h.2⟩
+    rw [if_neg h1, if_neg h2, if_neg (by simpa using h3), if_neg hb, if_neg hc1, if_neg hc2, if_neg hf]
+    exact withName_ok _ _ _ _ _ _ hnm rfl
+  · rw [hj]; exact candidate_suffix im.name _ j
+
+/-- Non-vacuity: a 4-bit CMYK image through ASCII85. -/
+example : ([Flt.a85] : List Flt).getLast? ≠ some .dct ∧ (4 : Nat) ≠ 1 ∧ ([Flt.a85] : List Flt) ≠ [.flate] := by decide
+
 /-! ## Distinct images get distinct file names -/
 
 /-- Whatever is exported, the returned name is not one of the existing files. -/
